@@ -624,7 +624,21 @@ pub fn run(cases: &[Value], trace: &mut Trace, _seed: u64) {
                 std::thread::sleep(Duration::from_millis(5));
             }
         }
+        // callers that are deadlocked on locks of the library (not on the socket, which is shut down by now) never come back:
+        // after a hang verdict they get a bounded time to finish, then they are left behind (the process ends after this case
+        // and the driver runs the remaining cases in a fresh one)
+        let mut left_behind = false;
         for h in handles {
+            if hang {
+                let t1 = Instant::now();
+                while !h.is_finished() && t1.elapsed() < Duration::from_secs(3) {
+                    std::thread::sleep(Duration::from_millis(5));
+                }
+                if !h.is_finished() {
+                    left_behind = true;
+                    continue;
+                }
+            }
             let _ = h.join();
         }
         if !recvfault.is_empty() {
@@ -645,6 +659,11 @@ pub fn run(cases: &[Value], trace: &mut Trace, _seed: u64) {
             trace.emit(e);
         }
         trace.emit(json!({"ev": "end", "hang": hang}));
+        if left_behind {
+            trace.flush();
+            eprintln!("vh txn: callers deadlocked for good; ending this process after case {case_no}");
+            std::process::exit(77);
+        }
     }
     FORCE_HANDOVER.store(false, std::sync::atomic::Ordering::SeqCst);
     vhost::verif::set_controller(None);
